@@ -123,7 +123,7 @@ func init() {
 	Register(&Check{
 		ID:     "C06",
 		Engine: "lattice",
-		Rule: "deviation-bounded product over {request kind: ACS by URL / by index / index and a different registered URL / neither / IdP-initiated} x 5 session shapes x 18 SP metadata shapes (1-3 ACS endpoints, AttributeConsumingService absent/non-default/default, with/without encryption key) x IdP configuration {Key RSA, Signer RSA, Signer ECDSA} x 9 signature methods x intermediates x clock position relative to the request's IssueInstant x tolerance settings; " +
+		Rule: "deviation-bounded product over {request kind: ACS by URL / by index / index and a different registered URL / neither / IdP-initiated / URL or index of a registered non-POST endpoint} x 5 session shapes x 18 SP metadata shapes (1-3 ACS endpoints, AttributeConsumingService absent/non-default/default, with/without encryption key) x IdP configuration {Key RSA, Signer RSA, Signer ECDSA} x 9 signature methods x intermediates x clock position relative to the request's IssueInstant x tolerance settings; " +
 			"every emitted page is decoded by an independent decoder (HTML tokenizer, base64, etree, own field extraction, own decryption) and both signatures are verified with a fresh goxmldsig context rooted in the IdP certificate only; a second response for a decoy session is issued first on the same IdP object. non-trivial = at least one axis off default",
 		Bounds: func(tier string) string {
 			if tier == "thorough" {
@@ -144,13 +144,14 @@ func runC06(c *core.Ctx) {
 	sessions := c06Sessions("S1")
 	decoys := c06Sessions("DECOY")
 	shapes := c06Shapes()
-	reqKinds := []string{"by-url", "by-index", "index-and-other-url", "neither", "idp-initiated"}
+	reqKinds := []string{"by-url", "by-index", "index-and-other-url", "neither", "idp-initiated", "by-url-of-non-post-endpoint", "by-index-of-non-post-endpoint"}
 	idpConfs := []string{"key-rsa", "signer-rsa", "signer-ecdsa"}
 	clocks := []time.Duration{0, 60 * time.Second, -30 * time.Second} // now - request IssueInstant
 	tols := []tol{{"default", 90 * time.Second, 180 * time.Second}, {"d30s-s5s", 30 * time.Second, 5 * time.Second}}
 	fields := []lattice.Field{
 		{Name: "req", N: len(reqKinds)}, {Name: "session", N: len(sessions)}, {Name: "shape", N: len(shapes)}, {Name: "idp", N: len(idpConfs)},
 		{Name: "method", N: len(c06Methods)}, {Name: "intermediates", N: 2}, {Name: "clock", N: len(clocks)}, {Name: "tol", N: len(tols)},
+		{Name: "reqextra", N: len(c06ReqExtras)},
 	}
 	k := 4
 	if c.Thorough() {
@@ -161,6 +162,9 @@ func runC06(c *core.Ctx) {
 		pt := append([]int{}, idx...)
 		key := fmt.Sprintf("req=%s/session=%s/shape=%s/idp=%s/method=%s/inter=%d/clock=%v/tol=%s", reqKinds[pt[0]], sessions[pt[1]].name, shapes[pt[2]].name, idpConfs[pt[3]],
 			shortAlg(c06Methods[pt[4]]), pt[5], clocks[pt[6]], tols[pt[7]].name)
+		if pt[8] != 0 {
+			key += "/reqextra=" + c06ReqExtras[pt[8]].name
+		}
 		c.Case(key, func(t *core.T) {
 			if dev > 0 {
 				t.NonTrivial()
@@ -213,6 +217,10 @@ func runC06(c *core.Ctx) {
 				if len(eps) == 3 {
 					index = samlgen.S("2")
 				}
+			case "by-url-of-non-post-endpoint": // registered only in the 3-endpoint shapes (HTTP-Artifact); unregistered elsewhere
+				url = samlgen.S(locL3reg)
+			case "by-index-of-non-post-endpoint":
+				index = samlgen.S("3")
 			case "index-and-other-url":
 				index = samlgen.S("1")
 				if len(eps) >= 2 {
@@ -240,7 +248,12 @@ func runC06(c *core.Ctx) {
 				}
 				want, _ = c05Select(eps, ru, ri)
 			}
-			doc := authnRequestXML(samlgen.S(samlgen.SPEntity), samlgen.S(samlgen.IDPSSO), samlgen.S("2.0"), samlgen.S(samlgen.TS(issued)), url, index, reqID)
+			plainDoc := authnRequestXML(samlgen.S(samlgen.SPEntity), samlgen.S(samlgen.IDPSSO), samlgen.S("2.0"), samlgen.S(samlgen.TS(issued)), url, index, reqID)
+			doc := plainDoc
+			if x := c06ReqExtras[pt[8]]; x.xml != "" && !idpInit {
+				// optional request content naming identities / formats: the emitted identity must not depend on it
+				doc = []byte(strings.Replace(string(plainDoc), "</saml:Issuer>", "</saml:Issuer>"+x.xml, 1))
+			}
 			serve := func() []byte {
 				w := httptest.NewRecorder()
 				if idpInit {
@@ -362,47 +375,60 @@ func runC06(c *core.Ctx) {
 					}
 				}
 			}
-			for s := range own {
-				if !seen[s] {
-					fail("session-string-missing", "session string %q does not appear as NameID or attribute value", s)
-				}
-			}
+			// (which session fields are emitted as attributes is the assertion maker's choice; C07 checks exactness of the round trip.
+			// Here only "nothing foreign" is demanded, as the statement says "of the authenticated session only".)
+			_ = seen
 			page := string(body) + string(d.Raw) + string(d.Plain)
 			if strings.Contains(page, "DECOY-") { // "-" cannot occur inside base64 blobs
 				fail("decoy-session-leaked", "strings of the previous (decoy) session appear in the response for the authenticated session")
 			}
-			for _, ca := range sess.CustomAttributes {
-				found := false
-				for _, at := range d.Attrs {
-					if at.Name == ca.Name && len(at.Values) == len(ca.Values) {
-						found = true
-					}
-				}
-				if !found {
-					fail("custom-attribute-missing", "custom attribute %q missing or with a different number of values", ca.Name)
-				}
-			}
 			// signatures
-			wantAlg := method
-			if wantAlg == "" {
-				wantAlg = dsig.RSASHA1SignatureMethod
-			}
+			wantAlg := method // "" = no method configured: any method the key supports is acceptable
 			if !d.RespSigOK {
 				fail("response-signature", "Response: %d signatures, verification under the IdP certificate: %s", d.RespSigs, d.RespSigErr)
 			}
 			if !d.AssSigOK {
 				fail("assertion-signature", "Assertion: %d signatures, verification under the IdP certificate: %s", d.AssSigs, d.AssSigErr)
 			}
-			if d.RespSigOK && d.RespSigAlg != wantAlg || d.AssSigOK && d.AssSigAlg != wantAlg {
+			if wantAlg != "" && (d.RespSigOK && d.RespSigAlg != wantAlg || d.AssSigOK && d.AssSigAlg != wantAlg) {
 				fail("signature-method", "SignatureMethod response=%q assertion=%q, configured %q", d.RespSigAlg, d.AssSigAlg, wantAlg)
 			}
 			certB64 := samlgen.Key(idpKey).CertB64
 			if len(d.RespSigCerts) == 0 || d.RespSigCerts[0] != certB64 || len(d.AssSigCerts) == 0 || d.AssSigCerts[0] != certB64 {
 				fail("keyinfo-certificate", "the first KeyInfo certificate is not the IdP certificate")
 			}
+			if string(doc) != string(plainDoc) {
+				// non-interference: the same session answered for the same request without the optional content carries the same identity
+				var body0 []byte
+				doc = plainDoc
+				guard(func() error { body0 = serve(); return nil })
+				t.Impl(1)
+				if d0, err0 := decodeIDPForm(body0, spKey(), idpCert, now); err0 != nil {
+					fail("request-content-changes-outcome", "with %s the request is answered, without it the answer is undecodable: %v", c06ReqExtras[pt[8]].name, err0)
+				} else {
+					id := func(x *decodedResponse) string {
+						s := fmt.Sprintf("NameID=%q Format=%q", x.NameID, x.NameIDFormat)
+						for _, at := range x.Attrs {
+							s += fmt.Sprintf(" %s/%s=%q", at.Name, at.NameFormat, at.Values)
+						}
+						return s
+					}
+					if id(d) != id(d0) {
+						fail("identity-depends-on-request-content", "request content (%s) changed the asserted identity of the same session: with: %s; without: %s", c06ReqExtras[pt[8]].name, id(d), id(d0))
+					}
+				}
+			}
 			t.Sample(map[string]interface{}{"case": key, "action": d.Form.Action, "encrypted": d.Encrypted, "sig_alg": d.RespSigAlg})
 		})
 	})
+}
+
+// optional AuthnRequest content (schema order: after Issuer) that names identities or formats
+var c06ReqExtras = []struct{ name, xml string }{
+	{"none", ""},
+	{"nameidpolicy-emailAddress", `<samlp:NameIDPolicy Format="urn:oasis:names:tc:SAML:1.1:nameid-format:emailAddress" AllowCreate="true"/>`},
+	{"nameidpolicy-persistent-spnamequalifier", `<samlp:NameIDPolicy Format="urn:oasis:names:tc:SAML:2.0:nameid-format:persistent" SPNameQualifier="https://other-sp.example.net/"/>`},
+	{"subject-names-another-principal", `<saml:Subject><saml:NameID Format="urn:oasis:names:tc:SAML:1.1:nameid-format:emailAddress">admin@example.com</saml:NameID></saml:Subject><samlp:NameIDPolicy AllowCreate="true"/>`},
 }
 
 func shortAlg(a string) string {
